@@ -66,6 +66,8 @@ struct Ctx {
 	p: Prng,
 	hook: Arc<StdMutex<HookState>>,
 	slate_nums: std::collections::HashMap<Uuid, u64>,
+	/// Some(original wallet) while an interrupted restore of it is being enumerated
+	rescan_of: Option<usize>,
 }
 
 fn rc_of<T>(r: &Result<Result<T, Error>, String>) -> Vec<u64> {
@@ -132,8 +134,63 @@ impl Ctx {
 		})
 	}
 
+	/// Recovery of an interrupted restore: the user runs the scan again. Afterwards every record's
+	/// account exists, every path recorded lies below its account's next-child index, and every
+	/// output of the seed in the UTXO set (as the original wallet `orig` knows them) is there.
+	fn rescan_recovers(&mut self, i: usize, orig: usize) -> Vec<String> {
+		let mut f = vec![];
+		let inst = self.s.wallets[i].inst.clone();
+		let r = guarded(|| owner::scan(inst.clone(), None, Some(1), false, &None));
+		if rc_of(&r) != vec![0] {
+			f.push(format!("scan after the interrupted restore fails: {:?}", rc_of(&r)));
+			return f;
+		}
+		let chain = self.s.node.chain.clone();
+		let want: Vec<(u64, u64, u64)> = self.s.with(orig, |b, _| {
+			b.iter()
+				.filter(|o| {
+					o.commit.as_ref().map(|c| {
+						let commit = Commitment::from_vec(grin_util::from_hex(c).unwrap());
+						chain.get_unspent(commit).unwrap().is_some()
+					}).unwrap_or(false)
+				})
+				.map(|o| { let (a, c) = key_pair(&o.key_id); (a, c, o.value) })
+				.collect()
+		});
+		self.s.with(i, |b, _| {
+			let accts: Vec<Identifier> = b.acct_path_iter().map(|m| m.path).collect();
+			let outs: Vec<_> = b.iter().collect();
+			for o in outs.iter() {
+				if !accts.contains(&o.root_key_id) {
+					f.push(format!("record {:?} belongs to no account of the wallet", key_pair(&o.key_id)));
+				}
+				let next = b.current_child_index(&o.root_key_id).unwrap_or(0);
+				if next <= o.n_child {
+					f.push(format!(
+						"next child index {} of account {} is not beyond the recorded path {:?} [interrupted-restore-index]",
+						next, key_pair(&o.key_id).0, key_pair(&o.key_id)
+					));
+				}
+			}
+			for (a, c, v) in want.iter() {
+				if !outs.iter().any(|o| key_pair(&o.key_id) == (*a, *c) && o.value == *v && o.status == OutputStatus::Unspent) {
+					f.push(format!("unspent output ({}, {}) of the seed is not restored", a, c));
+				}
+			}
+		});
+		f.sort();
+		f.dedup();
+		f.truncate(4);
+		f
+	}
+
 	/// The Recoverable oracle on wallet `i` as it is now (freshly opened). Returns failures.
 	fn recoverable(&mut self, i: usize, pre_spendable: Option<u64>) -> Vec<String> {
+		if let Some(orig) = self.rescan_of {
+			if i != orig {
+				return self.rescan_recovers(i, orig);
+			}
+		}
 		let mut f = vec![];
 		let wallet_dir = format!("{}/{}", self.s.dir, self.s.wallets[i].name);
 		let r = guarded(|| {
@@ -380,12 +437,33 @@ fn enumerate(
 	let _ = std::fs::remove_dir_all(&work);
 }
 
+/// Restore of wallet 0 from its recovery phrase into a new database, interrupted at every
+/// persistent-effect boundary of the scan (and with every write failing in turn); recovery = the
+/// scan run again (C15: "across restarts and crashes ... after a restore from seed the next path
+/// lies beyond every path found on chain"; C16: scanning is idempotent).
+fn restore_scan_enum(c: &mut Ctx, out: &mut Out) {
+	let phrase: String = {
+		let mut l = c.s.wallets[0].inst.lock();
+		let lc = l.lc_provider().unwrap();
+		(&*vharness::libwallet::WalletLCProvider::get_mnemonic(lc, None, grin_util::ZeroingString::from("")).unwrap()).to_owned()
+	};
+	let i = c.s.add_wallet("w0_restored", Some(&phrase), false);
+	c.rescan_of = Some(0);
+	let mut f = |c: &mut Ctx| {
+		let inst = c.s.wallets[i].inst.clone();
+		rc_of(&guarded(|| owner::scan(inst.clone(), None, Some(1), false, &None)))
+	};
+	enumerate(c, out, i, "restore_scan", json!(null), &[], &mut f, false);
+	c.rescan_of = None;
+}
+
 fn main() {
 	quiet_panics();
 	init_thread();
 	let out_path = arg("out").expect("--out");
 	let n = arg_u64("n", 1);
 	let shard = arg_u64("shard", 0);
+	let only_restore = arg_u64("only-restore", 0) == 1;
 	let base = format!("/tmp/vh_c06_{}_{}", std::process::id(), shard);
 	let mut out = Out::create(&out_path);
 	let seed = seed_from_env();
@@ -397,7 +475,7 @@ fn main() {
 		let mut s = Scen::new(&dir);
 		s.add_wallet("w0", None, false);
 		s.add_wallet("w1", None, false);
-		let mut c = Ctx { s, p: Prng::new(hseed), hook: hook.clone(), slate_nums: Default::default() };
+		let mut c = Ctx { s, p: Prng::new(hseed), hook: hook.clone(), slate_nums: Default::default(), rescan_of: None };
 		// model prefix: every operation on wallet 0 so far, in Ledger.v vocabulary
 		let mut ops0: Vec<Value> = vec![];
 		let warm = c.p.range(4, 6);
@@ -407,6 +485,24 @@ fn main() {
 			ops0.push(json!({"k": "coinbase", "fees": "0", "height": h, "key": null}));
 		}
 		c.s.mine(1, 3);
+		if only_restore {
+			// a second account with outputs of its own, then the interrupted restore alone
+			c.s.with(0, |b, m| owner::create_account_path(b, m, "account_1")).unwrap();
+			c.s.with(0, |b, _| owner::set_active_account(b, "account_1")).unwrap();
+			let k = c.p.range(1, 3) as usize;
+			c.s.mine(0, k);
+			c.s.with(0, |b, _| owner::set_active_account(b, "default")).unwrap();
+			c.s.mine(1, 2);
+			for a in &["default", "account_1"] {
+				c.s.with(0, |b, _| owner::set_active_account(b, a)).unwrap();
+				c.s.with(0, |b, m| { let pk = b.parent_key_id(); updater::refresh_outputs(b, m, &pk, true) }).unwrap();
+			}
+			c.s.with(0, |b, _| owner::set_active_account(b, "default")).unwrap();
+			restore_scan_enum(&mut c, &mut out);
+			drop(c);
+			let _ = std::fs::remove_dir_all(&dir);
+			continue;
+		}
 		let view = c.node_view(0);
 		c.s.with(0, |b, m| { let pk = b.parent_key_id(); updater::refresh_outputs(b, m, &pk, false) }).unwrap();
 		ops0.push(json!({"k": "refresh", "parent": 0, "all": false, "view": view}));
@@ -557,6 +653,8 @@ fn main() {
 			};
 			enumerate(&mut c, &mut out, 0, "update_state", json!(null), &[], &mut f, false);
 		}
+		// ---- restore from the recovery phrase, interrupted
+		restore_scan_enum(&mut c, &mut out);
 		drop(c);
 		let _ = std::fs::remove_dir_all(&dir);
 	}
